@@ -14,7 +14,7 @@ class Engine(NpMixin, Exec):
     pass
 
 
-def verify_contract(db, cc, target=None, prefix=None, engine_cls=Engine):
+def verify_contract(db, cc, target=None, prefix=None, engine_cls=Engine, fixed=None):
     """-> (engine, obligations, funcinfo).  Raises Unsupported when the function leaves the supported subset."""
     target = target or cc.target
     fi = extract.load_function(target)
@@ -34,6 +34,10 @@ def verify_contract(db, cc, target=None, prefix=None, engine_cls=Engine):
                 ty = "obj"
             else:
                 raise Unsupported("no type declared for parameter %s of %s" % (p, target))
+        if fixed and p in fixed:
+            st.vars[p] = fixed[p]
+            ex.inputs.append((p, ("const",), fixed[p]))
+            continue
         st.vars[p] = fresh_of_type(st, p, ty, ex.inputs)
     # defaults are not applied: every parameter is symbolic
     if cc.assigns is not None:
